@@ -59,7 +59,7 @@ def gen_item(rng, depth, maxdepth, P):
     kinds = [("byte", 30), ("str", 6), ("any", 9), ("skip", 6), ("range", 6), ("jump", 4), ("save", 9),
              ("aligned", 4), ("read", 7), ("zero", 2)]
     if depth < maxdepth:
-        kinds += [("group", 10), ("alt", 10)]
+        kinds += [("group", 13), ("alt", 13)]
     tot = sum(w for _, w in kinds)
     r = rng.randrange(tot)
     for k, w in kinds:
@@ -101,12 +101,19 @@ def gen_item(rng, depth, maxdepth, P):
     # alternatives
     nb = rng.choice([1, 2, 2, 2, 3, 3, 4])
     bodies = [gen_seq(rng, depth + 1, maxdepth, P) for _ in range(nb)]
-    if rng.random() < 0.6:
+    shape = rng.random()
+    firsts = rng.sample(al, nb) if al and len(al) >= nb else rng.sample(range(256), nb)
+    if shape < 0.5:
         # the realistic shape: every non-empty alternative starts with its own literal byte
-        firsts = rng.sample(al, min(len(al), nb)) if al and len(al) >= nb else rng.sample(range(256), nb)
         for b, f in zip(bodies, firsts):
             if b or rng.random() < 0.5:
                 b.insert(0, ("byte", f))
+    elif shape < 0.75:
+        # a common prefix (a literal or a wild card), then the distinguishing byte: a failed alternative has
+        # already moved the cursor / bookmarked something when it fails
+        pre = rng.choice([[("byte", rb())], [("byte", rb())], [("any",)], [("byte", rb()), ("save",)], [("readU", 1)], [("save",), ("byte", rb())]])
+        for b, f in zip(bodies, firsts):
+            b[0:0] = list(pre) + [("byte", f)]
     if rng.random() < 0.25:
         bodies[rng.randrange(nb)] = []                               # ( | ) empty alternative
     if rng.random() < 0.3:
@@ -151,11 +158,16 @@ def gen_seq(rng, depth, maxdepth, P):
 
 
 def gen_tree(rng, big=False, maxdepth=None):
-    maxdepth = rng.choice([0, 1, 1, 2, 2, 3, 4]) if maxdepth is None else maxdepth
+    maxdepth = rng.choice([0, 1, 1, 2, 2, 3, 3, 4, 4]) if maxdepth is None else maxdepth
     alpha = rng.sample(range(256), rng.choice([3, 4, 6])) if rng.random() < 0.45 else None
-    P = {"budget": rng.choice([6, 10, 14, 20, 28]), "alpha": alpha,
+    P0 = {"budget": rng.choice([6, 10, 14, 20, 28, 36]), "alpha": alpha,
          "bigs": (1 if rng.random() < 0.25 else 0), "bigr": (1 if big and rng.random() < 0.5 else 0)}
-    t = gen_seq(rng, 0, maxdepth, P)
+    want = min(maxdepth, rng.choice([0, 1, 1, 2, 2, 3]))
+    for _ in range(8):
+        P = dict(P0)
+        t = gen_seq(rng, 0, maxdepth, P)
+        if depth_of(t) >= want:
+            break
     # known deviation (2): a `[a-b]` the parser trims from the end of the pattern.  Mostly avoided.
     if trailing_range(t) and rng.random() < 0.85:
         t.append(rng.choice([("byte", rng.choice(alpha) if alpha else rng.getrandbits(8)), ("save",), ("readU", 1)]))
@@ -272,7 +284,7 @@ def fp_item(it, ptr):
     if t == "skip":
         return it[1]
     if t == "range":
-        return it[2] - 1
+        return it[2]                 # the synthesiser may overshoot the (exclusive) upper bound by one
     if t in ("jump", "group"):
         return jwidth(it[1], ptr)
     if t in ("readI", "readU"):
@@ -465,6 +477,18 @@ def first_lit(items):
     return None
 
 
+def cant_fail(items):
+    """matches at any cursor inside the data (nothing is compared)"""
+    for it in items:
+        t = it[0]
+        if t in ("save", "zero", "any", "skip", "readI", "readU") or (t == "str" and not it[1]) or (t == "aligned" and it[1] >= 32):
+            continue
+        if t == "alt" and any(cant_fail(b) for b in it[1][:1]):
+            continue
+        return False
+    return True
+
+
 class Synth:
     """a memory region `[0, n)` standing for the rvas `base .. base+n`"""
 
@@ -474,6 +498,8 @@ class Synth:
         self.kind = [FREE] * n
         self.avoid = {}
         self.ops = set()
+        self.sites = []          # (item list, index, kind, info): tokens on the satisfied path that variants change
+        self.unsat = False       # a deliberately unsatisfied choice was made (range over / undershoot)
 
     # ---- memory
     def reserve(self, need, align=1, window=None):
@@ -539,6 +565,7 @@ class Synth:
                 self.ops.update(item_ops(it))
             if t == "byte":
                 self.put(c, it[1], EXACT); c += 1
+                self.sites.append((items, i, "byte", None))
             elif t == "str":
                 for b in it[1]:
                     self.put(c, b, EXACT); c += 1
@@ -548,14 +575,25 @@ class Synth:
                 for q in range(c, min(c + it[1], self.n)):
                     self.wild(q)
                 c += it[1]
+                self.sites.append((items, i, "skip", None))
             elif t == "range":
                 a, b = it[1], it[2]
-                s = self.rng.choice([a, a, b - 1, b - 1, min(a + 1, b - 1), self.rng.randrange(a, b)])
+                r = self.rng.random()
+                if r < 0.08:
+                    s = b                          # one more than the (exclusive) upper bound allows: no match
+                    self.unsat = True
+                elif r < 0.12 and a >= 1:
+                    s = a - 1                      # one less than the lower bound
+                    self.unsat = True
+                else:
+                    s = self.rng.choice([a, a, b - 1, b - 1, min(a + 1, b - 1), self.rng.randrange(a, b)])
+                    self.sites.append((items, i, "range", s))
                 x = first_lit(rest)
-                for q in range(c, min(c + s, self.n)):
-                    self.wild(q)
-                    if q >= c + a and x is not None:
-                        self.avoid.setdefault(q, set()).add(x)      # the rest must not match at an earlier candidate
+                for q in range(c, min(c + max(s, b), self.n)):
+                    if q < c + s:
+                        self.wild(q)
+                    if q >= c + a and q != c + s and x is not None and self.kind[q] in (RES, WILD):
+                        self.avoid.setdefault(q, set()).add(x)      # the rest must not match at another candidate
                 c += s
             elif t == "jump":
                 c = self.lay_jump(it[1], c, fp_seq(rest, self.ptr) + tail, rest)
@@ -566,27 +604,25 @@ class Synth:
             elif t == "aligned":
                 n = it[1]
                 rva = self.base + c
+                tz = (rva & -rva).bit_length() - 1 if rva else 32
                 if n < 32 and rva % (1 << n) != 0 and self.rng.random() < 0.9:
-                    tz = (rva & -rva).bit_length() - 1 if rva else 5
-                    items[i] = ("aligned", self.rng.randrange(0, min(tz, 5) + 1))      # adjust the tree to the cursor
+                    # adjust the tree to the cursor: the largest alignment that holds, or any smaller one
+                    items[i] = ("aligned", tz if self.rng.random() < 0.4 else self.rng.randrange(0, min(tz, 5) + 1))
                 self.ops.update(item_ops(items[i]))
+                self.sites.append((items, i, "aligned", tz))
             elif t in ("readI", "readU"):
                 for q in range(it[1]):
                     v = self.rnd() if self.rng.random() < 0.7 else self.rng.choice([0, 0x7F, 0x80, 0xFF])
                     self.put(c + q, v, READ)
                 c += it[1]
+                self.sites.append((items, i, "read", None))
             elif t == "alt":
                 bodies = it[1]
                 if not bodies:
                     raise Fail("no alternative")
-                j = self.rng.choice([0, 0] + list(range(len(bodies))) * 2)
+                j = self.rng.choice([0] + list(range(len(bodies))) * 2)
                 for q in range(j):
-                    if first_lit(bodies[q]) is None:       # may match whatever the bytes are: it is the one taken
-                        j = q
-                        break
-                fj = first_lit(bodies[j])
-                for q in range(j):
-                    if first_lit(bodies[q]) == fj:         # an earlier alternative starting alike would be tried first
+                    if cant_fail(bodies[q]):               # matches whatever the bytes are: it is the one taken
                         j = q
                         break
                 c0 = c
@@ -596,7 +632,9 @@ class Synth:
                     self.ops.add("(|)later-alternative")
                 c = self.lay_seq(bodies[j], c, fp_seq(rest, self.ptr) + tail)
                 for q in range(j):
-                    self.avoid.setdefault(c0, set()).add(first_lit(bodies[q]))
+                    x = first_lit(bodies[q])
+                    if x is not None and 0 <= c0 < self.n and self.val[c0] is None:
+                        self.avoid.setdefault(c0, set()).add(x)
             # save / zero: nothing to lay out
         return c
 
@@ -624,9 +662,12 @@ def synth(rng, tree, size, base, ptr, va_of, alpha, tries=8):
         try:
             al = 1
             for it in t[:2]:
-                if it[0] == "aligned" and it[1] <= 5:
+                if it[0] == "aligned" and it[1] <= 12:
                     al = 1 << it[1]
-            start = S.reserve(fp_seq(t, ptr), max(al, rng.choice([1, 1, 2, 4, 8, 16])))
+            if al > 32 and base % al == 0:
+                start = S.reserve(fp_seq(t, ptr), 1, (0, 0))           # `@a`: only the section start is that aligned
+            else:
+                start = S.reserve(fp_seq(t, ptr), max(min(al, 32), rng.choice([1, 1, 2, 4, 8, 16])))
             S.lay_seq(t, start, 0)
         except Fail:
             continue
@@ -647,6 +688,44 @@ def perturbations(rng, S, data, n):
         d = bytearray(data)
         d[q] ^= rng.choice([1, 1, 0x80, 0xFF, rng.randrange(1, 256)])
         out.append(bytes(d))
+    return out
+
+
+def pattern_variants(rng, S, tree, n):
+    """single token changes of the pattern on the satisfied path (the bytes stay): the alignment at and just
+    above what the cursor has, range bounds at and just beside the skip the layout uses, a literal changed,
+    sign <-> zero extension, a fixed skip one longer / shorter -> list of pattern hex strings"""
+    sharp = [x for x in S.sites if x[2] in ("aligned", "range")]
+    other = [x for x in S.sites if x[2] not in ("aligned", "range")]
+    rng.shuffle(sharp); rng.shuffle(other)
+    out = []
+    for (items, i, kind, info) in (sharp + other)[:n]:
+        old = items[i]
+        alts = []
+        if kind == "byte":
+            alts = [("byte", old[1] ^ rng.choice([1, 0x80, 0xFF, 0x20]))]
+        elif kind == "aligned":
+            tz = info
+            alts = [("aligned", min(tz, 31))] + ([("aligned", tz + 1)] if tz + 1 < 32 else [("aligned", 35)])
+        elif kind == "range":
+            a, b, sk = old[1], old[2], info
+            alts = [("range", a, sk + 1), ("range", sk, sk + rng.choice([1, 2, 5])), ("range", sk + 1, sk + 3)]
+            if a < sk:
+                alts.append(("range", a, sk))
+            rng.shuffle(alts)
+            alts = alts[:3]
+        elif kind == "read":
+            alts = [("readU" if old[0] == "readI" else "readI", old[1])]
+        elif kind == "skip":
+            alts = [("skip", old[1] + 1)] + ([("skip", old[1] - 1)] if old[1] else [])
+        for new in alts:
+            items[i] = new
+            sty = Style(rng)
+            h = hx(render(tree, sty).encode("utf-8"))
+            TREE_OPS[h] = tree_ops(tree)
+            SAT_OPS[h] = (set(S.ops) - set(item_ops(old))) | set(item_ops(new))
+            out.append(h)
+        items[i] = old
     return out
 
 
@@ -703,7 +782,7 @@ def note_ops(ph, tree, S):
     SAT_OPS[ph] = set(S.ops) if S is not None else set()
 
 
-def image_tree_cases(rng, tree, alpha, bits, nperturb, edge):
+def image_tree_cases(rng, tree, alpha, bits, nperturb, edge, nvar=4):
     """all cases of one tree: exact layout, perturbations, truncations; file + view"""
     ptr = bits // 8
     need = total_fp(tree, ptr)
@@ -711,6 +790,11 @@ def image_tree_cases(rng, tree, alpha, bits, nperturb, edge):
         return []
     size = min(0x700, max(0x40, 2 * need + rng.choice([16, 48, 96])))
     pe = new_pe(rng, bits)
+    if tree and tree[0][0] == "aligned" and 6 <= tree[0][1] <= 12:
+        for _ in range(40):                      # `@a` and the like: a data section that is aligned that much
+            if pe.sections[-1].va % (1 << tree[0][1]) == 0:
+                break
+            pe = new_pe(rng, bits)
     sec = pe.sections[-1]
     base = sec.va
     ib = pe.image_base
@@ -736,6 +820,8 @@ def image_tree_cases(rng, tree, alpha, bits, nperturb, edge):
     ops = [sem_op("K", phs[0], cur, ns) for ns in nsaves(rng, sl, True)]
     for ph in phs[1:]:
         ops.append(sem_op("K", ph, cur, sl))
+    for ph in pattern_variants(rng, S, tree, nvar):
+        ops.append(sem_op("K", ph, cur, sl))
     if edge:
         end = base + len(data)
         for c in rng.sample([cur + 1, cur - 1, end, end - 1, base, 0x3C, 0, U32, base - 1, pe.layout["size_of_image"]], 4):
@@ -757,7 +843,7 @@ def image_tree_cases(rng, tree, alpha, bits, nperturb, edge):
 def gen_sem_special(rng, tier):
     """the hand-written corner trees on images of both widths"""
     cases = []
-    reps = 1 if tier == "quick" else 6
+    reps = 1 if tier == "quick" else 10
     for _ in range(reps):
         for i, tree in enumerate(SPECIAL_TREES):
             bits = 32 if (i + _) % 2 == 0 else 64
@@ -771,7 +857,7 @@ def gen_sem_special(rng, tier):
 def gen_sem_random(rng, tier):
     """random trees: exact layouts, perturbations, cursors off by one / at the section end / in the headers"""
     cases = []
-    n = 45 if tier == "quick" else 900
+    n = 60 if tier == "quick" else 3000
     made = 0
     guard = 0
     while made < n and guard < 20 * n:
@@ -810,6 +896,8 @@ def raw_tree_case(rng, tree, alpha, width, nperturb):
     ops = [ref_op(phs[0], data, start, ns, width) for ns in nsaves(rng, sl, True)]
     for ph in phs[1:]:
         ops.append(ref_op(ph, data, start, sl, width))
+    for ph in pattern_variants(rng, S, tree, 5):
+        ops.append(ref_op(ph, data, start, sl, width))
     for c in rng.sample([start + 1, max(start - 1, 0), len(data), len(data) - 1, 0, len(data) + 1, U32], 3):
         ops.append(ref_op(phs[0], data, c, sl, width))
     for d in perturbations(rng, S, data, nperturb):
@@ -829,7 +917,7 @@ def gen_ref(rng, tier):
         c = raw_tree_case(rng, tree, None, 32 if i % 2 else 64, 2)
         if c:
             cases.append(c)
-    n = 220 if tier == "quick" else 5000
+    n = 300 if tier == "quick" else 15000
     made = guard = 0
     while made < n and guard < 20 * n:
         guard += 1
